@@ -11,6 +11,6 @@ Extraction "../ocaml/C13/model.ml" Anchor.anchor
   Model.add_all Model.bytes_to_hash Model.part_from_proto_real
   Model.encode_header Model.encode_commit_sig Model.header_hash Model.commit_hash Model.evidence_hash
   Model.commit_validate Model.validate_basic
-  Model.verify_commit Model.validate_block Model.proposal_parts_ok
+  Model.verify_commit Model.validate_block Model.proposal_parts_ok Model.exec_validate Model.validation_key
   Model.key_meta Model.key_part Model.key_commit Model.key_seen Model.key_canon Model.key_height
   Model.db_get Model.db_put Model.write_block Model.read_parts.
